@@ -933,7 +933,8 @@ def r8(ctx):
                     text = 't' in mode or (d == 'open' and 'b' not in mode)
                     return [l_ if text else l_.encode() for l_ in lines]
                 return NotImplemented
-            got = [tuple(x) for x in run_function(g, [path], env={}, call_hook=fhook, budget=20000)]
+            from ..consteval import ExternalRef
+            got = [tuple(x) for x in run_function(g, [path], env={'gzip.open': ExternalRef('gzip.open'), 'open': ExternalRef('open')}, call_hook=fhook, budget=20000)]
             n += 1
             if got != want_recs and rbad is None:
                 rbad = {'file': path, 'records read': got, 'expected': want_recs}
